@@ -89,7 +89,7 @@ def parseFl (w : String) : Option Framed.Fl :=
 def parseItem (w : String) : Option (List Nat) :=
   if w.startsWith "n:" then
     match (w.drop 2).toString.toNat? with
-    | some n => if n ≤ 20000 then some (List.replicate n 97) else none
+    | some n => if n ≤ 300000 then some (List.replicate n 97) else none
     | none => none
   else parseHex w
 
@@ -233,6 +233,16 @@ def step (st : State) (line : String) : State × String :=
     | none => (st, "bad-op")
   | "chunkse" :: hs => match parseAll hs with
     | some ps => if ps.isEmpty then (st, "bad-op") else (st, chunksRun ps true)
+    | none => (st, "bad-op")
+  -- `LinesCodec` under `Framed`: the non-empty pieces are the reads, then end of file
+  | "framed" :: hs => match parseAll hs with
+    | some ps =>
+      if ps.isEmpty || ps.any (fun p => p.length > maxChunk) then (st, "bad-op")
+      else
+        let reads := ps.filter (fun p => !p.isEmpty)
+        let polls := reads.length + (ps.flatten.filter (· == 10)).length + 4
+        let (os, _) := Framed.pollN Framed.linesCodec polls (Framed.rinit (reads.map .data))
+        (st, s!"[{",".intercalate (os.map outStr)}]")
     | none => (st, "bad-op")
   | "enc" :: hs => match parseAll hs with
     | some xs =>
